@@ -571,7 +571,10 @@ class World(object):
                          judge_cb=False)
         st.extra['tpl'] = self.template
         yield
-        x = Fxp(self.obj(src), s, w, f, **kw)
+        if op.get('dtype') is not None:
+            x = Fxp(self.obj(src), dtype=op['dtype'], **kw)
+        else:
+            x = Fxp(self.obj(src), s, w, f, **kw)
         self.finish_new(st, x)
 
     def op_new_like(self, st):
